@@ -63,6 +63,11 @@ def cells(tier, seed):
         for sub, qobj in itertools.product(subsets, ["g0"] if tier == "quick" else ["g0", "prior", "nearsingular"]):
             out.append({"what": "objective", "strategy": strat, "lik": lik, "dist": "Cholesky", "objective": obj, "priors": pri,
                         "added": add, "subset": sub, "q": qobj})
+            if pri and not add and lik == "Gaussian" and (tier == "thorough" or sub in (subsets[0], subsets[-1])):
+                # the model holds its likelihood as a sub-module too (model.likelihood = likelihood, as get_fantasy_model requires): the
+                # prior-bearing module is reachable from the objective by two paths, its prior is still ONE prior
+                out.append({"what": "objective", "strategy": strat, "lik": lik, "dist": "Cholesky", "objective": obj, "priors": pri,
+                            "added": add, "subset": sub, "q": qobj, "holds": 1})
             if pri and not add and (tier == "thorough" or sub in (subsets[0], subsets[-1])):
                 out.append({"what": "objective", "strategy": strat, "lik": lik, "dist": "Cholesky", "objective": obj, "priors": 2,
                             "added": add, "subset": sub, "q": qobj})
@@ -287,6 +292,8 @@ class Setup:
             self.model.covar_module.outputscale = hyp["os"]
             self.model.mean_module.weights.copy_(hyp["w"])
             self.model.mean_module.bias.copy_(hyp["b"])
+        if cell.get("holds"):
+            self.model.likelihood = self.lik
         self.model.train()
         self.lik.train()
         with torch.no_grad():
@@ -365,7 +372,7 @@ class Setup:
 # ----------------------------------------------------------------------------------------------------------------------
 def run_cell(cell, seed):
     fails = Fails()
-    feats = {k: cell.get(k) for k in ("what", "strategy", "lik", "dist", "objective", "priors", "added", "subset", "jit", "q")}
+    feats = {k: cell.get(k) for k in ("what", "strategy", "lik", "dist", "objective", "priors", "added", "subset", "jit", "q", "holds")}
     if cell["what"] == "objective":
         feats["B"] = bin(cell["subset"]).count("1")
     util.own_rng(seed, "c15-lib|" + util.jdump(cell))
